@@ -223,11 +223,27 @@ def execute(plan, prop, trace):
             for rd in s.get("redraws", []):
                 tr.fault("sender_redraw")
                 live = bm.encode(max_size_per_chunk=rd["chunk"], animate=rd.get("animate", True))
-                earlier.append((list(live), live, rd))
+                snap = list(live)
+                if rd.get("consume"):
+                    # the display code owns the list it was handed and uses it up (shows and drops frames, re-orders it, overwrites a
+                    # slot): what it does to ITS list must not reach what a later encode() returns
+                    tr.fault("returned_list_consumed_" + rd["consume"])
+                    if rd["consume"] == "pop":
+                        while live:
+                            live.pop(0)
+                    elif rd["consume"] == "reverse":
+                        live.reverse()
+                    else:
+                        live[0] = "ur:bytes/overwritten"
+                    live = None
+                earlier.append((snap, live, rd))
+            if s.get("fresh_obj"):
+                # the captured animation comes from a new object made for the same payload
+                bm = BCURMulti(text)
             fr = bm.encode(max_size_per_chunk=s["chunk"], animate=s.get("animate", True))
             for snap, live, rd in earlier:
                 tr.oracle("A3_redraw")
-                if list(live) != snap:
+                if live is not None and list(live) != snap:
                     fail("A3", "earlier_frames_changed", f"sender {si}: frames returned by encode(chunk={rd['chunk']}) changed after a later encode() on the same object")
                 try:
                     o2 = BCURMulti.parse(list(snap))
@@ -433,6 +449,11 @@ def generate(ch, tier, prop):
         elif ch.chance(0.3):
             c0 = s["chunk"]
             s["redraws"] = [{"chunk": ch.choice([c0, c0, max(1, c0 - 1), c0 + 1, ch.randrange(1, 2001), 100000]), "animate": ch.chance(0.85)} for _ in range(ch.randrange(1, 4))]
+            for rd in s["redraws"]:
+                if ch.chance(0.4):
+                    rd["consume"] = ch.choice(["pop", "reverse", "overwrite"])
+            if ch.chance(0.3):
+                s["fresh_obj"] = True
         senders.append(s)
     if nsend == 2 and ch.chance(0.3):
         senders[1] = dict(senders[0])  # same payload, same part count: cross-talk of an identical animation
@@ -525,6 +546,12 @@ def enumerate_plans(tier, prop, seed):
             for anim_last in (True, False):
                 yield {"mode": "multi", "senders": [{"len": L, "pseed": 4500 + seed, "chunk": hist[-1], "animate": anim_last, "redraws": [{"chunk": c, "animate": True} for c in hist[:-1]]}],
                        "receiver": "naive", "steps": [], "enum": "redraws"}
+            # the same histories with every earlier list used up by its owner, the captured frames coming from the same or a new object
+            for consume in ("pop", "reverse", "overwrite"):
+                for fresh in (False, True):
+                    yield {"mode": "multi", "senders": [{"len": L, "pseed": 4500 + seed, "chunk": hist[-1], "animate": True, "fresh_obj": fresh,
+                                                         "redraws": [{"chunk": c, "animate": True, "consume": consume} for c in hist[:-1]]}],
+                           "receiver": "naive", "steps": [], "enum": "redraws_consumed"}
     # (5) CBOR boundaries and chunk-size sweep on clean deliveries
     for L in (0, 1, 22, 23, 24, 25, 254, 255, 256, 257):
         for chunk in (1, 2, 3, 7, 50, 300):
